@@ -915,4 +915,109 @@ theorem trailing_open_suffix (after : List Trivia) (i : Nat) (h : CommaFree afte
             exact ⟨' ' :: c0.rebuild 0 ++ '\n' :: formatTrivia init.tail i, by simp, by simp⟩
         · exact ⟨'\n' :: formatTrivia init i, by simp, by simp⟩
 
+
+/-! ### format_interstitial_trivia -/
+
+theorem interGo_step (i : Nat) (nl : Bool) (t : Trivia) (rest : List Trivia) (acc : Text) :
+    formatInterstitialGo i nl (t :: rest) acc =
+      formatInterstitialGo i nl rest (acc ++ piecesText (interItemPieces i nl acc t)) := by
+  cases t with
+  | emptyLine =>
+    rw [formatInterstitialGo]
+    by_cases h : endsWithNL acc = true <;> simp [interItemPieces, interGlue, piecesText, Piece.text, h]
+  | linebreak =>
+    rw [formatInterstitialGo]
+    by_cases h : endsWithNL acc = true <;> simp [interItemPieces, interGlue, piecesText, Piece.text, h]
+  | comma => rw [formatInterstitialGo]; simp [interItemPieces, interGlue, piecesText, Piece.text]
+  | comment c =>
+    rw [formatInterstitialGo]
+    by_cases hi : c.inline = true
+    · have hr : c.rebuild 0 = c.token 0 := by
+        rw [rebuild_eq_token]; simp [Comment.effIndent, hi]
+      simp only [hi, if_true, hr]
+      congr 1
+      cases acc with
+      | nil => cases nl <;> simp [interItemPieces, interGlue, piecesText, Piece.text, hi]
+      | cons a as =>
+        by_cases h2 : ((a :: as).getLast? == some ' ' || endsWithNL (a :: as)) = true
+        · cases nl <;> simp [interItemPieces, interGlue, piecesText, Piece.text, hi, h2]
+        · cases nl <;> simp [interItemPieces, interGlue, piecesText, Piece.text, hi, h2]
+    · have hr : c.rebuild i = spaces i ++ c.token i := by
+        rw [rebuild_eq_token]; simp [Comment.effIndent, hi]
+      simp only [hi, Bool.false_eq_true, if_false, hr]
+      congr 1
+      by_cases h2 : (!acc.isEmpty && !endsWithNL acc) = true
+      · simp [interItemPieces, interGlue, piecesText, Piece.text, hi, h2]
+      · simp [interItemPieces, interGlue, piecesText, Piece.text, hi, h2]
+
+theorem interGo_pieces (i : Nat) (nl : Bool) : ∀ (ts : List Trivia) (acc : Text),
+    formatInterstitialGo i nl ts acc = acc ++ piecesText (interPieces i nl ts acc)
+  | [], acc => by simp [formatInterstitialGo, interPieces, piecesText]
+  | t :: rest, acc => by
+    rw [interGo_step, interGo_pieces i nl rest, interPieces, piecesText_append, List.append_assoc]
+
+theorem interPieces_comments (i : Nat) (nl : Bool) : ∀ (ts : List Trivia) (acc : Text),
+    (interPieces i nl ts acc).filterMap Piece.cmt? = commentTokens i ts
+  | [], acc => rfl
+  | t :: rest, acc => by
+    rw [interPieces, List.filterMap_append, interPieces_comments i nl rest]
+    cases t with
+    | comment c =>
+      by_cases hi : c.inline = true
+      · cases nl <;> simp [interItemPieces, hi, Piece.cmt?, commentTokens, Comment.effIndent, List.filterMap_cons]
+      · simp [interItemPieces, hi, Piece.cmt?, commentTokens, Comment.effIndent, List.filterMap_cons]
+    | _ => simp [interItemPieces, Piece.cmt?, commentTokens, List.filterMap_cons]
+
+/-- The rendering depends on the text rendered before only through its last character. -/
+theorem interItemPieces_append (i : Nat) (nl : Bool) (a b : Text) (hb : b ≠ []) (t : Trivia) :
+    interItemPieces i nl (a ++ b) t = interItemPieces i nl b t := by
+  have h1 : endsWithNL (a ++ b) = endsWithNL b := endsWithNL_append_of_ne_nil a b hb
+  have h2 : (a ++ b).getLast? = b.getLast? := by
+    cases b with
+    | nil => exact absurd rfl hb
+    | cons x xs => simp [List.getLast?_eq_some_getLast]
+  have h3 : (a ++ b).isEmpty = false := by cases b with
+    | nil => exact absurd rfl hb
+    | cons x xs => simp
+  have h4 : b.isEmpty = false := by cases b with
+    | nil => exact absurd rfl hb
+    | cons x xs => rfl
+  cases t <;> simp [interItemPieces, interGlue, h1, h2, h3, h4]
+
+theorem interPieces_append (i : Nat) (nl : Bool) : ∀ (ts : List Trivia) (a b : Text), b ≠ [] →
+    interPieces i nl ts (a ++ b) = interPieces i nl ts b
+  | [], _, _, _ => rfl
+  | t :: rest, a, b, hb => by
+    rw [interPieces, interPieces, interItemPieces_append i nl a b hb, List.append_assoc,
+      interPieces_append i nl rest a _ (by simp [hb])]
+
+theorem interGo_append (i : Nat) (nl : Bool) (ts : List Trivia) (a b : Text) (hb : b ≠ []) :
+    formatInterstitialGo i nl ts (a ++ b) = a ++ formatInterstitialGo i nl ts b := by
+  rw [interGo_pieces, interGo_pieces, interPieces_append i nl ts a b hb, List.append_assoc]
+
+/-- At a line start, without inline comments, interstitial rendering is the flatMap form of
+    `format_trivia`. -/
+theorem interGo_at_line_start (i : Nat) (nl : Bool) : ∀ (ts : List Trivia) (acc : Text),
+    CommaFree ts → (∀ t ∈ ts, t.isInlineComment = false) → endsWithNL acc = true →
+    formatInterstitialGo i nl ts acc = acc ++ ts.flatMap (itemText i)
+  | [], acc, _, _, _ => by simp [formatInterstitialGo]
+  | t :: rest, acc, hcf, hin, hacc => by
+    have hne : acc ≠ [] := by intro h; rw [h] at hacc; simp at hacc
+    have hemp : acc.isEmpty = false := by cases acc with
+      | nil => exact absurd rfl hne
+      | cons x xs => rfl
+    have hrest := fun acc' h' => interGo_at_line_start i nl rest acc' (commaFree_cons hcf)
+      (fun t ht => hin t (List.mem_cons_of_mem _ ht)) h'
+    cases t with
+    | emptyLine =>
+      rw [formatInterstitialGo, hrest _ (by simp [hacc])]; simp [hacc, itemText]
+    | linebreak =>
+      rw [formatInterstitialGo, hrest _ (by simp [hacc])]; simp [hacc, itemText]
+    | comma => exact absurd List.mem_cons_self hcf
+    | comment c =>
+      have hi : c.inline = false := by simpa [Trivia.isInlineComment] using hin _ List.mem_cons_self
+      rw [formatInterstitialGo]
+      simp only [hi, Bool.false_eq_true, if_false, hemp, hacc, Bool.not_false, Bool.not_true, Bool.and_false]
+      rw [hrest _ (endsWithNL_concat _ _)]; simp [itemText]
+
 end Nima
